@@ -461,3 +461,25 @@ R.fclause("C20", "llm-adapter/fallback-block-cannot-raise", "custom", RT, fn=ada
 R.fclause("C04", "killswitch/batch-driver-gate:apply_changes", "gate",
           "clematis/engine/orchestrator/parallel.py:_run_agents_parallel_batch",
           sites={"call": "apply_changes"}, gate="t4_enabled")
+
+
+# ---------------------------------------------------------------- C02: the metrics gate is perf.enabled && perf.metrics.report_memory
+# Both copies of the gate predicate (engine/util/metrics.py:gate_on and stages/t2/config.py:metrics_gate_on) are
+# verified (Engine V, every JSON-like cfg): True only when both switches are truthy.  The T2 stage reports cache
+# metrics on a *hit* through that predicate: the two reads of hit.metrics on the hit path are dominated by it.
+_GATE_BOTH = ("result == (dyn_truthy(dget(ite(dyn_truthy(dget(cfg, 'perf', {})), dget(cfg, 'perf', {}), dyn(dict())), 'enabled', False)) and "
+              "dyn_truthy(dget(ite(dyn_truthy(dget(ite(dyn_truthy(dget(cfg, 'perf', {})), dget(cfg, 'perf', {}), dyn(dict())), 'metrics', {})), "
+              "dget(ite(dyn_truthy(dget(cfg, 'perf', {})), dget(cfg, 'perf', {}), dyn(dict())), 'metrics', {}), dyn(dict())), 'report_memory', False)))")
+for _key in ("clematis/engine/util/metrics.py:gate_on", "clematis/engine/stages/t2/config.py:metrics_gate_on"):
+    R.contract(_key, "C02", callee=False, types={"cfg": "Dyn"}, returns="bool",
+               requires=[("cfg-is-a-mapping-of-mappings",
+                          "is_dict(cfg) and (not dyn_truthy(dget(cfg, 'perf', {})) or is_dict(dget(cfg, 'perf', {}))) and "
+                          "(not dyn_truthy(dget(dget(cfg, 'perf', {}), 'metrics', {})) or is_dict(dget(dget(cfg, 'perf', {}), 'metrics', {})))")],
+               ensures=[("true-only-when-perf-enabled", "implies(result, dyn_truthy(dget(dget(cfg, 'perf', {}), 'enabled', False)))"),
+                        ("true-only-when-report-memory", "implies(result, dyn_truthy(dget(dget(dget(cfg, 'perf', {}), 'metrics', {}), 'report_memory', False)))"),
+                        ("true-when-both", "implies(dyn_truthy(dget(dget(cfg, 'perf', {}), 'enabled', False)) and "
+                                           "dyn_truthy(dget(dget(dget(cfg, 'perf', {}), 'metrics', {}), 'report_memory', False)), result)")],
+               raises="none",
+               unreachable_ok=["perf = getattr(cfg, 'perf', {}) or {}"])      # cfg is a dict here (the namespace form is not modelled)
+R.fclause("C02", "gate/t2-cache-hit-metrics", "gate", T2S, sites={"call": "get", "recv": "hit.metrics"},
+          gate="_metrics_gate_on(cfg_root)", min_sites=2)
